@@ -310,8 +310,10 @@ def _store(field, base_pat=None, value=None):
                 if value is not None:
                     return value(e["rhs"])
                 return True
-        if e.get("e") == "inc":
-            l = strip_casts(e["x"])
+        from ..rules import incr_of
+        r = incr_of(e)
+        if r is not None:
+            l = strip_casts(r[0])
             if isinstance(l, dict) and l.get("k") == "mem" and l["f"] == field and value is None:
                 return base_pat is None or base_pat in key(l["b"])
         return False
@@ -374,8 +376,10 @@ def check_signal_after_change(ctx):
 
 def _dec(field):
     def pred(e):
-        if e.get("e") == "inc" and e.get("op") == "--":
-            l = strip_casts(e["x"])
+        from ..rules import incr_of
+        r = incr_of(e)
+        if r is not None and r[1] == -1:
+            l = strip_casts(r[0])
             return isinstance(l, dict) and l.get("k") == "mem" and l["f"] == field
         return False
     return pred
